@@ -90,8 +90,19 @@ def run_case(case, ctx):
     L = _good(n)
     if not _fft_friendly(n):
         ctx.count("len:not_fft_good")
+    orng = np.random.default_rng([case["seed"], 131])
+    loc_m = str(orng.choice(["median", "median", "mean", "norm"]))
+    scale_m = str(orng.choice(["iqr", "iqr", "mad", "std", "norm"]))
+    xin = x
+    if orng.random() < 0.25:
+        big = np.zeros(2 * n, dtype=np.float32)
+        big[::2] = x
+        xin = big[::2]
+        ctx.count("variant:strided_input")
+    one["params"].update(loc=loc_m, scale=scale_m)
+    ctx.count(f"options:{loc_m}/{scale_m}")
     try:
-        mf = MatchedFilter(x, temp_kind=kind, nbins_max=nbmax, spacing_factor=spacing)
+        mf = MatchedFilter(xin, loc_method=loc_m, scale_method=scale_m, temp_kind=kind, nbins_max=nbmax, spacing_factor=spacing)
     except Exception as exc:  # noqa: BLE001
         ctx.violation(f"raised:{kind}:{type(exc).__name__}@{exc_site(exc)}", fmt_exc(exc), one)
         return
@@ -127,7 +138,9 @@ def run_case(case, ctx):
     # invariance under positive affine maps
     for a, b in ((0.5, -7.0), (3.0, 1000.0), (100.0, 0.0)):
         ctx.count("invariance_checks")
-        mf2 = MatchedFilter((a * x.astype(np.float64) + b).astype(np.float32), temp_kind=kind, nbins_max=nbmax, spacing_factor=spacing)
+        if loc_m == "norm" or scale_m == "norm":
+            break   # 'norm' switches the standardisation off: invariance is not claimed then
+        mf2 = MatchedFilter((a * x.astype(np.float64) + b).astype(np.float32), loc_method=loc_m, scale_method=scale_m, temp_kind=kind, nbins_max=nbmax, spacing_factor=spacing)
         d = np.abs(np.asarray(mf2.convs, dtype=np.float64) - convs).max()
         if d > 3e-3 * max(1.0, np.abs(convs).max()) * (1 + abs(b) / 100):
             ctx.violation(f"affine-invariance:{kind}", f"convs change by {d:.3e} under x -> {a}*x+{b}", one)
